@@ -23,6 +23,8 @@ func runC12(p *Program, r *Report) {
 	ruleR123(p, r)
 	r.Rule("R12.4", "E3", 5, "NULL stays NULL and untouched: the row decoders copy a NULL marker through without calling the column subscribers (MySQL text: the nil value edge re-emits the original bytes; MySQL binary: a set bitmap bit skips the column; PostgreSQL: IsNull columns are skipped before SetData), and the PostgreSQL re-serializer emits each column's own length buffer")
 	ruleR124(p, r)
+	r.Rule("R12.6", "E3", 2, "nil means NULL, empty means empty: the bound-value copy constructors of both dialects decide whether to allocate the copy by a nil test of the input, so a zero-length non-NULL parameter stays non-nil (the serializers write nil as NULL and an empty slice as a zero-length value)")
+	ruleR126(p, r)
 	r.Rule("R12.5", "E2", 2, "what is sent is what was read: PacketHandler.Marshal emits the message type, the stored length buffer and the stored payload in that order and nothing else; Packet.Dump emits header then data")
 	ruleR125(p, r)
 }
@@ -721,4 +723,45 @@ func init() {
 	mut("C12", "mysql text NULL handed to the subscribers", "decryptor/mysql/response_proxy.go", "		if value == nil {\n			output = append(output, rowData[pos:pos+n]...)\n			pos += n\n			continue\n		}", "		if value == nil {\n			value = []byte{}\n		}", "R12.4", "text row")
 	mut("C12", "pg NULL column rewritten as empty", "decryptor/postgresql/pg_decryptor.go", "		if column.IsNull() {\n			continue\n		}\n		// default values Text", "		// default values Text", "R12.4", "PostgreSQL: NULL")
 	mut("C12", "Marshal emits a recomputed length", "decryptor/postgresql/packet_handler.go", "	output = append(output, packet.descriptionLengthBuf...)\n	output = append(output, packet.descriptionBuf.Bytes()...)", "	output = append(output, packet.descriptionBuf.Bytes()...)\n	output = append(output, packet.descriptionLengthBuf...)", "R12.5", "emits type")
+}
+
+func ruleR126(p *Program, r *Report) {
+	for _, spec := range []string{"decryptor/postgresql.NewPgBoundValue", "decryptor/mysql.NewMysqlCopyTextBoundValue"} {
+		fn := p.Func(spec)
+		if fn == nil || fn.Blocks == nil {
+			r.Anchor("R12.6", spec)
+			continue
+		}
+		data := paramByName(fn, "data")
+		ok, why := false, "the copy is not guarded by a nil test of the input"
+		for _, b := range fn.Blocks {
+			for _, in := range b.Instrs {
+				mk, isMk := in.(*ssa.MakeSlice)
+				if !isMk {
+					continue
+				}
+				for _, i := range allIfs(fn) {
+					if _, nonNil, isN := nilBranches(i, data); isN && nonNil.Dominates(mk.Block()) {
+						ok = true
+					}
+				}
+				// a length test in front of the allocation loses the distinction
+				for _, i := range allIfs(fn) {
+					if !(i.Block().Succs[0].Dominates(mk.Block()) || i.Block().Succs[1].Dominates(mk.Block())) {
+						continue
+					}
+					for v := range backClosure(i.Cond) {
+						if op, isLen := isLenCall(v); isLen && op == ssa.Value(data) {
+							ok, why = false, "the copy is allocated only for len(data) > 0: a zero-length non-NULL value becomes nil"
+						}
+					}
+				}
+			}
+		}
+		r.Check(ok, "R12.6", fnName(fn), "copy keeps nil-ness of the input", p.Pos(fn.Pos()), "data != nil -> make+copy", why+": when the message is re-serialized the empty parameter is written as NULL")
+	}
+}
+
+func init() {
+	mut("C12", "empty bound value becomes nil", "decryptor/postgresql/prepared_statements.go", "	var newData []byte\n	if data != nil {\n		newData = make([]byte, len(data))", "	var newData []byte\n	if len(data) > 0 {\n		newData = make([]byte, len(data))", "R12.6", "nil-ness")
 }
